@@ -6,31 +6,39 @@
 (*   disk[p]    : "old" | "new(i)" content tag of path p                     *)
 (*   k          : index of the file being processed                          *)
 (*   failAt     : file whose print fails (0 = none)                          *)
-(* ContinueAfterError / WrongPath are the mistakes the invariants catch.     *)
+(*   size[i]    : the print of file i is "shorter", "same" or "longer" than   *)
+(*                what the path holds (an edit may remove code)               *)
+(*   stale[p]   : path p still holds bytes of its previous content            *)
+(* ContinueAfterError / WrongPath / NoTruncate are the mistakes the           *)
+(* invariants catch.                                                          *)
 (***************************************************************************)
 EXTENDS Integers, Sequences, FiniteSets, TLC
 
-CONSTANTS NFiles, Variant   \* "code" | "continue-after-error" | "wrong-path"
-VARIABLES disk, k, failAt, result
-vars == <<disk, k, failAt, result>>
+CONSTANTS NFiles, Variant   \* "code" | "continue-after-error" | "wrong-path" | "no-truncate"
+VARIABLES disk, k, failAt, result, size, stale
+vars == <<disk, k, failAt, result, size, stale>>
 
 Paths == 1..(NFiles + 1)          \* NFiles recorded paths and one unrelated file in the directory
-Init == disk = [p \in Paths |-> 0] /\ k = 1 /\ failAt \in 0..NFiles /\ result = "running"
+Init == /\ disk = [p \in Paths |-> 0] /\ k = 1 /\ failAt \in 0..NFiles /\ result = "running"
+        /\ size \in [1..NFiles -> {"shorter", "same", "longer"}] /\ stale = [p \in Paths |-> FALSE]
 
 Step ==
   /\ result = "running" /\ k <= NFiles
   /\ IF k = failAt
      THEN /\ result' = IF Variant = "continue-after-error" THEN "running" ELSE "error"
-          /\ UNCHANGED disk
-     ELSE /\ disk' = [disk EXCEPT ![IF Variant = "wrong-path" /\ k > 1 THEN k - 1 ELSE k] = k]
+          /\ UNCHANGED <<disk, stale>>
+     ELSE LET p == IF Variant = "wrong-path" /\ k > 1 THEN k - 1 ELSE k IN
+          /\ disk' = [disk EXCEPT ![p] = k]
+          \* the write replaces the whole content: nothing of a longer previous content survives
+          /\ stale' = [stale EXCEPT ![p] = (Variant = "no-truncate" /\ size[k] = "shorter")]
           /\ result' = result
-  /\ k' = k + 1 /\ UNCHANGED failAt
-Finish == result = "running" /\ k > NFiles /\ result' = (IF failAt = 0 \/ Variant # "continue-after-error" THEN "ok" ELSE "error") /\ UNCHANGED <<disk, k, failAt>>
+  /\ k' = k + 1 /\ UNCHANGED <<failAt, size>>
+Finish == result = "running" /\ k > NFiles /\ result' = (IF failAt = 0 \/ Variant # "continue-after-error" THEN "ok" ELSE "error") /\ UNCHANGED <<disk, k, failAt, size, stale>>
 Next == Step \/ Finish
 
 \* only the recorded paths are written, each with the print of its own file
 OnlyRecordedPaths == disk[NFiles + 1] = 0
-OwnContents == \A p \in 1..NFiles : disk[p] \in {0, p}
+OwnContents == \A p \in 1..NFiles : disk[p] \in {0, p} /\ ~stale[p]
 \* after a failure at file i no later file is written and the error is returned
 StopAtFirstError == (failAt # 0 /\ k > failAt) => (result = "error" /\ \A p \in failAt..NFiles : disk[p] = 0)
 AllWrittenOnSuccess == result = "ok" => \A p \in 1..NFiles : disk[p] = p
